@@ -289,7 +289,7 @@ impl Prop for C09 {
 			if i % nshards != shard {
 				continue;
 			}
-			for (k, segs) in [vec![format!("a:{}", "b".repeat(n))], vec![format!("{}:b", "_".repeat(n)), "c".to_string()], vec!["..".to_string(), "x".to_string(), "..".to_string(), "..".to_string(), format!("{}:b", "y".repeat(n))], vec![".".to_string(), "".to_string(), "b".repeat(n)]].into_iter().enumerate() {
+			for (k, segs) in [vec![format!("a:{}", gen::filler(n))], vec![format!("{}:b", "_".repeat(n)), "c".to_string()], vec!["..".to_string(), "x".to_string(), "..".to_string(), "..".to_string(), format!("{}:b", "y".repeat(n))], vec![".".to_string(), "".to_string(), "b".repeat(n)], vec![".".to_string(), gen::filler(n)], vec![".".to_string(), gen::filler(n), "file".to_string()], vec![gen::filler(n), ".".to_string()]].into_iter().enumerate() {
 				let fam = if (i + k) % 2 == 0 { Fam::Uri } else { Fam::Iri };
 				let e = match (i + k) % 4 {
 					0 | 1 => None,
@@ -305,7 +305,7 @@ impl Prop for C09 {
 		{
 			let mut gi = 0usize;
 			for n in gen::huge_sizes(tier) {
-				let x = "A".repeat(n);
+				let x = gen::filler(n);
 				for (abs, segs) in [(false, vec![format!("1:{x}"), ".".to_string()]), (true, vec![x.clone(), "..".into(), "y".into(), x.clone(), ".".into()]), (false, vec!["..".into(), x.clone(), "".into(), "..".into()])] {
 					gi += 1;
 					if gi % nshards != shard {
